@@ -56,7 +56,7 @@ def extra_requests(game, rng, inv):
             reqs.append(["network", "node", h, "file_system", "delete", "file", "burst", "b%d_%d.txt" % (game.step_counter, i)])
     d = inv[h]
     for app in d["applications"]:
-        if app in ("web-browser", "database-client") and rng.random() < 0.3:
+        if app in ("web-browser", "database-client", "data-manipulation-bot") and rng.random() < 0.3:
             reqs += [["network", "node", h, "application", app, "execute"]] * rng.choice([1, 6, 12])
     for fo, files in d["folders"].items():
         for f in files[:1]:
@@ -65,16 +65,99 @@ def extra_requests(game, rng, inv):
     return reqs
 
 
-def walk(ck, name, cfg, steps, membership=True, truth=False, episodes=2):
+class NmneMon:
+    """counts, independently of the interface's own bookkeeping, the frames that carry a capture keyword through each interface
+    while capture is on; per NIC-observation object the sequence of such events and of observations is kept for the model."""
+    installed = False
+    events = {}        # id(nic) -> [nic, [directions since last flush]]
+    cases = []         # (lo, me, hi, ops text list, observed leaves)
+
+    @classmethod
+    def install(cls):
+        if cls.installed:
+            return
+        from primaite.simulator.network.hardware.base import NetworkInterface
+        orig = NetworkInterface._capture_nmne
+
+        def wrapped(self, frame, inbound=True):
+            cfg = self.nmne_config
+            if cfg and cfg.capture_nmne and any(k in str(frame.payload) for k in cfg.nmne_capture_keywords):
+                cls.events.setdefault(id(self), [self, []])[1].append(bool(inbound))
+            return orig(self, frame, inbound)
+        NetworkInterface._capture_nmne = wrapped
+        cls.installed = True
+
+    def __init__(self):
+        self.per_obs = {}     # id(nic observation) -> {"o": obs, "ops": [...], "out": [...], "pos": events consumed}
+
+    def check(self, ck, env, name, ep, st, hist):
+        ag, sim = env.agent, env.game.simulation
+        root = ag.observation_manager.obs
+        nodes_obs = [c for c in getattr(root, "components", {}).items() if type(c[1]).__name__ == "NodesObservation"]
+        nested = nested_obs(ag)
+        for label, no in nodes_obs:
+            for hi_, h in enumerate(no.hosts):
+                node = obstruth._node(sim, h.where[-1]) if h.where else None
+                on = node is not None and node.operating_state.name == "ON"
+                for slot, o in enumerate(h.nics):
+                    if not o.include_nmne:
+                        continue
+                    rec = self.per_obs.setdefault(id(o), {"o": o, "ops": [], "out": [], "pos": 0})
+                    nic = node.network_interface.get(o.where[-1]) if (node is not None and o.where) else None
+                    ev = NmneMon.events.get(id(nic), [None, []])[1] if nic is not None else []
+                    new = ev[rec["pos"]:]
+                    rec["pos"] = len(ev)
+                    rec["ops"] += ["Captured %s" % ("true" if d else "false") for d in new]
+                    present = on and nic is not None
+                    rec["ops"].append("Observe %s" % ("true" if present else "false"))
+                    rec.setdefault("pending", [0, 0])
+                    for d in new:
+                        rec["pending"][0 if d else 1] += 1
+                    try:
+                        leaf = nested[label]["HOST%d" % hi_]["NICS"][slot + 1]["NMNE"]
+                        got = [int(leaf["inbound"]), int(leaf["outbound"])]
+                    except Exception:
+                        got = [-1, -1]
+                    rec["out"] += got
+                    if present:
+                        want = [obstruth.cat(o.low_nmne_threshold, o.med_nmne_threshold, o.high_nmne_threshold, c) for c in rec["pending"]]
+                        rec["pending"] = [0, 0]
+                    else:
+                        want = [0, 0]
+                    ck.count("nmne-leaf-checks")
+                    if sum(want) > 0:
+                        ck.count("nmne-leaf-nonzero")
+                    if got != want:
+                        ck.violation("observation-differs-from-ground-truth:NMNE", "%s episode %d step %d: NMNE leaf of host %s interface slot %d is %s, but %s keyword frames "
+                                     "(inbound, outbound) passed that interface since its last observation => %s" % (name, ep, st, h.where[-1] if h.where else None, slot + 1, got,
+                                     "these many" if present else "the host is not ON; any", want),
+                                     {"scenario": name, "episode": ep, "step": st, "host": h.where[-1] if h.where else None, "slot": slot + 1, "observed": got, "expected": want, "actions": list(hist)})
+
+    def flush(self):
+        for rec in self.per_obs.values():
+            o = rec["o"]
+            if rec["ops"]:
+                NmneMon.cases.append(("(%d, %d, %d, [%s])" % (o.low_nmne_threshold, o.med_nmne_threshold, o.high_nmne_threshold, "; ".join(rec["ops"])), list(rec["out"])))
+        self.per_obs = {}
+
+
+def walk(ck, name, cfg, steps, membership=True, truth=False, episodes=2, idle=0.0):
     rng = ck.rng
     cfg = copy.deepcopy(cfg)
     cfg["game"]["max_episode_length"] = max(cfg["game"].get("max_episode_length", 0), steps + 2)
     del PENDING[:]
+    mon = None
+    if truth:
+        NmneMon.install()
+        mon = NmneMon()
     env = world.make_env(cfg)
     space0 = env.observation_space
     aspace0 = env.action_space
     for ep in range(episodes):
         obs, _ = env.reset()
+        if mon is not None:
+            mon.flush()
+            mon.check(ck, env, name, ep, -1, [])
         if membership:
             if env.observation_space != space0 or env.action_space != aspace0:
                 ck.violation("space-changed-between-episodes", "%s: the observation/action space of episode %d differs from the first one" % (name, ep), {"scenario": name, "episode": ep})
@@ -97,7 +180,9 @@ def walk(ck, name, cfg, steps, membership=True, truth=False, episodes=2):
                             pass
                 game.apply_agent_actions = patched
             a = rng.randrange(n)
-            if rng.random() < 0.3:      # bias towards power / lifecycle actions so that off / transitional states are visited
+            if rng.random() < idle:
+                a = 0                   # let the scripted agents' traffic flow
+            elif rng.random() < 0.3:      # bias towards power / lifecycle actions so that off / transitional states are visited
                 pw = [i for i, (t, o) in env.agent.action_manager.action_map.items() if t in POWER]
                 if pw:
                     a = rng.choice(pw)
@@ -115,8 +200,11 @@ def walk(ck, name, cfg, steps, membership=True, truth=False, episodes=2):
                 check_member(ck, env, obs, name, ep, st, hist)
             if truth:
                 check_truth(ck, env, name, ep, st, hist)
+                mon.check(ck, env, name, ep, st, hist)
             if trunc:
                 break
+    if mon is not None:
+        mon.flush()
 
 
 def check_member(ck, env, obs, name, ep, st, hist):
